@@ -6,6 +6,7 @@ import (
 	stdgzip "compress/gzip"
 	stdzlib "compress/zlib"
 	"fmt"
+	"hash/crc32"
 	"io"
 	"runtime/debug"
 	"time"
@@ -45,8 +46,35 @@ func (s WSetting) accel() bool {
 
 // Op is one API call of a history.
 type Op struct {
-	Op string `json:"op"` // "W" | "F" | "C" | "R"
+	Op string `json:"op"` // "W" | "F" | "C" | "R" | "S"
 	N  int    `json:"n"`  // bytes for W
+}
+
+// How a case hands its data to the Writer (WCase.Via): "" = Write; "copy" = io.Copy from a source
+// that has no WriteTo and returns its last bytes together with io.EOF (a ReadFrom method of the
+// Writer, if it has one, is then what runs); "string" = io.WriteString (a WriteString method).
+// In every mode the buffer that was handed over is overwritten as soon as the call has returned:
+// a Writer must not keep it.
+
+// dataEOFReader returns its last bytes together with io.EOF.
+type dataEOFReader struct {
+	b []byte
+	k int // piece size
+}
+
+func (r *dataEOFReader) Read(p []byte) (int, error) {
+	n := len(p)
+	if r.k > 0 && r.k < n {
+		n = r.k
+	}
+	if n >= len(r.b) {
+		n = copy(p, r.b)
+		r.b = nil
+		return n, io.EOF
+	}
+	copy(p, r.b[:n])
+	r.b = r.b[n:]
+	return n, nil
 }
 
 // WCase is one writer history to execute.
@@ -59,6 +87,8 @@ type WCase struct {
 	FailAt    int      `json:"failat"` // the FailEpoch-th destination fails at its FailAt-th call (0 = never)
 	FailEp    int      `json:"failep"`
 	Partial   bool     `json:"partial"`   // the failing call accepts half of its bytes
+	Via       string   `json:"via"`       // how Write data is handed over: "" | "copy" | "string" (see Op)
+	ZeroValue bool     `json:"zerovalue"` // gzip: the Writer is a zero value (new(gzip.Writer)) made usable by Reset, not the result of a constructor
 	ErrKind   string   `json:"errkind"`   // what the destination's error looks like (errKinds)
 	FullCount bool     `json:"fullcount"` // the failing call takes all its bytes and returns the error with the full count
 	Bulk      int      `json:"bulk"`      // instead of ops: this many one-shot streams of sizes at the output-piece boundaries (see execBulk)
@@ -221,7 +251,17 @@ func runWriterOps(c *WCase, ops []Op, startEpoch int, failing bool, emit func(WE
 	if startEpoch > 0 {
 		hdr = nil // the fresh Writer a reset one is compared with has the constructor's default header
 	}
-	data := epochData(c.Data, epoch).Bytes()
+	// with a preset dictionary the payload begins with the dictionary's end and its beginning
+	// (otherwise nothing would ever refer into the dictionary)
+	echo := func(d []byte) []byte {
+		if len(dict) >= 64 && len(d) >= 200 {
+			k := minInt(len(d)/2, minInt(3000, len(dict)/2))
+			copy(d, dict[len(dict)-k:])
+			copy(d[k:], dict[:k])
+		}
+		return d
+	}
+	data := echo(epochData(c.Data, epoch).Bytes())
 	pos := 0
 	var u wUnderTest
 	var cerr error
@@ -234,6 +274,21 @@ func runWriterOps(c *WCase, ops []Op, startEpoch int, failing bool, emit func(WE
 		}()
 		set := c.Set
 		set.Hdr = hdr
+		if c.ZeroValue && set.Kind == "gzip" {
+			u, cerr = zeroValueGzip(set.Impl, sink)
+			return
+		}
+		if dict != nil && set.Kind == "flate" {
+			// compress/flate takes what it needs of the dictionary in the constructor (its
+			// documentation does not ask the caller to keep the slice): the caller's copy is
+			// overwritten right after
+			tmp := append([]byte{}, dict...)
+			u, cerr = newWriter(set, sink, tmp)
+			for i := range tmp {
+				tmp[i] = byte(i * 7)
+			}
+			return
+		}
 		u, cerr = newWriter(set, sink, dict)
 	}()
 	if cpan != "" {
@@ -308,7 +363,7 @@ func runWriterOps(c *WCase, ops []Op, startEpoch int, failing bool, emit func(WE
 				sink = newSink()
 			}
 			hdr = nil // gzip: Reset restores the default header, as NewWriterLevel does
-			data = epochData(c.Data, epoch).Bytes()
+			data = echo(epochData(c.Data, epoch).Bytes())
 			pos = 0
 			pan := ""
 			func() {
@@ -344,9 +399,25 @@ func runWriterOps(c *WCase, ops []Op, startEpoch int, failing bool, emit func(WE
 					n = len(data) - pos
 				}
 				ev.N = n
-				chunk := data[pos : pos+n]
+				chunk := append([]byte{}, data[pos:pos+n]...)
 				pos += n // content is compared against the bytes offered
-				ev.Ret, e = u.w.Write(chunk)
+				via := c.Via
+				if n == 0 {
+					via = "" // (io.Copy of nothing calls nothing: an empty Write is an empty Write)
+				}
+				switch via {
+				case "copy":
+					var m int64
+					m, e = io.Copy(u.w, struct{ io.Reader }{&dataEOFReader{b: chunk, k: 5000 + n%3000}})
+					ev.Ret = int(m)
+				case "string":
+					ev.Ret, e = io.WriteString(u.w, string(chunk))
+				default:
+					ev.Ret, e = u.w.Write(chunk)
+				}
+				for i := range chunk {
+					chunk[i] ^= 0x5a // the buffer belongs to the caller again
+				}
 			case "F":
 				ev.Ev = "Flush"
 				e = u.w.Flush()
@@ -693,5 +764,98 @@ func execBulkChecksum(c *WCase, emit func(interface{})) {
 	for _, n := range []int{5551, 5552, 5553, 11104, 11105, 65535, 65536, 133248, 133254, 133260, 133264} {
 		run(n)
 	}
+	if set.Kind == "gzip" && (c.Data.Period == 2 || c.Arch == 3 || c.Arch == 4) {
+		// (quick tier: at the two vector levels only, where 4 GiB take a few seconds)
+		// a member that passes 4 GiB, with a Write boundary exactly on 2^32 (where a 32-bit length
+		// counter is 0 again) and more data behind it; read by compress/gzip through a pipe
+		ev.N++
+		if bad := hugeMember(set); bad != "" {
+			ev.Ret++
+			if ev.Err == "nil" {
+				ev.Err = "4 GiB member: " + bad
+			}
+		}
+	}
 	emit(ev)
+}
+
+func hugeMember(set WSetting) (bad string) {
+	defer func() {
+		if x := recover(); x != nil {
+			bad = "panic: " + panicString(x)
+		}
+	}()
+	pr, pw := io.Pipe()
+	type res struct {
+		n   int64
+		crc uint32
+		err error
+	}
+	done := make(chan res, 1)
+	go func() {
+		var r res
+		zr, err := stdgzip.NewReader(pr)
+		if err != nil {
+			r.err = err
+			io.Copy(io.Discard, pr)
+			done <- r
+			return
+		}
+		h := crc32.NewIEEE()
+		r.n, r.err = io.Copy(h, zr)
+		r.crc = h.Sum32()
+		io.Copy(io.Discard, pr)
+		done <- r
+	}()
+	set.Level = 0 // (stored blocks: what is under test is the container's bookkeeping, and 4 GiB should take seconds)
+	u, err := newWriter(set, pw, nil)
+	if err != nil {
+		pw.Close()
+		<-done
+		return "constructor: " + err.Error()
+	}
+	unit := make([]byte, 64<<20)
+	want := crc32.NewIEEE()
+	var total int64
+	for i := 0; i < 64 && bad == ""; i++ {
+		if _, err := u.w.Write(unit); err != nil {
+			bad = "Write: " + err.Error()
+		}
+		want.Write(unit)
+		total += int64(len(unit))
+	}
+	tail := DataSpec{Class: "text", Seed: 3, Len: 1 << 20}.Bytes()
+	if bad == "" {
+		if _, err := u.w.Write(tail); err != nil {
+			bad = "Write: " + err.Error()
+		}
+		want.Write(tail)
+		total += int64(len(tail))
+		if err := u.w.Close(); err != nil {
+			bad = "Close: " + err.Error()
+		}
+	}
+	pw.Close()
+	r := <-done
+	if bad != "" {
+		return bad
+	}
+	if r.err != nil || r.n != total || r.crc != want.Sum32() {
+		return fmt.Sprintf("compress/gzip read %d of %d bytes: %v", r.n, total, r.err)
+	}
+	return ""
+}
+
+// zeroValueGzip: a gzip Writer that no constructor has seen - the zero value, made usable by
+// Reset (compress/gzip documents nothing else for pooled or embedded Writers); it writes with
+// level 0 of the zero value.
+func zeroValueGzip(impl string, dst io.Writer) (wUnderTest, error) {
+	if impl == "std" {
+		w := new(stdgzip.Writer)
+		w.Reset(dst)
+		return wUnderTest{w, func(d io.Writer) { w.Reset(d) }}, nil
+	}
+	w := new(fggzip.Writer)
+	w.Reset(dst)
+	return wUnderTest{w, func(d io.Writer) { w.Reset(d) }}, nil
 }
